@@ -236,6 +236,8 @@ mod hyg {
         hyg2 += "        { let a = arr![%s, %s]; let b = box_arr![%s, %s]; rec(\"const_repeat\", 2, &[], a.as_slice(), a.len(), &[], b.as_slice(), b.len()); }\n" % (nm, nm, nm, nm)
     hyg2 += "    }\n}\n"
     hyg += hyg2
+    for (ty, hi, lo) in (("U4294967296", 1, 0), ("Sum<U4294967296, U7>", 1, 7), ("U1099511627776", 256, 0)):
+        main.append("    { let b: Box<GenericArray<(), %s>> = box_arr![(); %s]; let l = b.len() as u64; println!(\"{{\\\"ev\\\":\\\"macro_huge\\\",\\\"k_hi\\\":%d,\\\"k_lo\\\":%d,\\\"len_hi\\\":{},\\\"len_lo\\\":{}}}\", l >> 32, l & 0xffff_ffff); }" % (ty, ty, hi, lo))
     main.append("    hyg::run();")
     main.append("    hyg_items::run();")
     return "\n".join(out) + "\n" + "\n".join(consts) + hyg + "\nfn main() {\n" + "\n".join(main) + "\n}\n"
